@@ -41,6 +41,10 @@ def strategy_case(draw):
         vals = draw(st.lists(st.integers(-700, 700), min_size=n, max_size=n, unique=True))
         c["angles"] = [v / 10.0 for v in vals]
         c["angles_as"] = draw(st.sampled_from(["list", "array", "file"]))
+        if c["angles_as"] != "file" and draw(st.booleans()):
+            # refined angles (from alignment): distinct values much closer together than 0.1 degree
+            fine = draw(st.lists(st.integers(-5000, 5000), min_size=n, max_size=n, unique=True))
+            c["angles"] = [12.0 + v * 1e-3 for v in fine]
     elif op == "remove":
         k = draw(st.integers(1, n - 1))
         c["idx"] = draw(st.lists(st.integers(0, n - 1), min_size=k, max_size=k, unique=True))
